@@ -1075,7 +1075,7 @@ func clipText(s string) string {
 
 func TestC16CursorShapes(t *testing.T) {
 	fw.Run(t, fw.Spec[shapeCase]{
-		ID: "C16", Name: "cursor_shapes", Quick: 4000, Thorough: 80000,
+		ID: "C16", Name: "cursor_shapes", Quick: 3000, Thorough: 40000,
 		Gen: genShape, Check: checkShape,
 		Rule: "a table t(id, g, s, x) of 0-400 rows (62% 0-12, 16% 13-159, 22% 160-400 = at least two goroutine chunks) built from 1-7 drawn row templates (NULL/empty cells, strings with quotes, commas, non-ASCII, numeric and non-numeric text) stored as CSV, TSV, JSON, LTSV file or temporary table, a joined table u, CPU 1/2/4; one cursor over one of 17 query forms (wildcard, one column, six columns, typed cells: integer/float/ternary/datetime/NULL, DISTINCT, GROUP BY, UNION ALL, analytic functions, JOIN, LEFT JOIN, inline subquery, LIMIT/OFFSET, scalar subquery, no table, no rows), declared for the query or (30%) for a prepared statement with a placeholder; right after OPEN the cursor is listed by FETCH ABSOLUTE 0..COUNT-1 and must equal the query evaluated as a statement right before (in order when the query orders by a unique key or is a plain scan at CPU 1, as a multiset otherwise); then 3-12 operations: FETCH in all positions incl. offsets around +-2^31, +-2^62, +-(2^63-1), data changes (single/multi-row INSERT, INSERT SELECT, UPDATE, DELETE, REPLACE, ALTER ADD/DROP/RENAME, DISPOSE VIEW t, changes of u, COMMIT, ROLLBACK), WHILE IN with CONTINUE / with FETCH RELATIVE n on the loop cursor in the body / with a nested WHILE IN over the same cursor / with a statement of the body that fails in iteration k, after which the pointer is on the record of that iteration (visited rows logged with their types in a temporary table), COUNT and IS IN RANGE also evaluated once per row of t, CLOSE + OPEN (for a prepared cursor after the statement was prepared anew with another query, disposed, or replaced by a DELETE or by two queries: then the OPEN must fail, leave the cursor closed and execute nothing); every FETCH must deliver exactly the listed row at the addressed position; at the end the cursor is listed again. Non-trivial = a data change between OPEN and a later in-range fetch or loop visit; distinct by format, CPU, size class, query and operation/outcome sequence",
 		Assumptions: []string{
